@@ -9,11 +9,12 @@
 EXTENDS Handlers
 
 CONSTANTS Mode, MaxLen, Frames, Lists,
-          ExtraTokens      \* further token strings for this run (members of the archive: only with the full list)
+          ExtraTokens,     \* further token strings for this run (members of the archive: only with the full list)
+          Pres             \* prior world states: cache artefacts already lying in the root before the request
 
-VARIABLES phase, hl, frame, raw,     \* the case
+VARIABLES phase, hl, frame, raw, pre, \* the case (pre: see Handlers!PreStates)
           res                        \* what the model says about it (see Result)
-vars == <<phase, hl, frame, raw, res>>
+vars == <<phase, hl, frame, raw, pre, res>>
 
 CharAlphabet == {"/", ".", "\\", NUL, "%", "|", "?", "g", "0", "2", "5", "c", "e", "f"}
 \* (26 tokens; the four look-alike classes replaced the low-value tokens .\ %5c %25 %7c, whose
@@ -51,23 +52,24 @@ Result(h, fr, r) ==
                ELSE IF ~ClimbIsNotFoundC(dd, o) THEN "ClimbIsNotFoundM"
                ELSE IF ~NoCwdRelativeC(o) THEN "NoCwdRelativeM"
                ELSE IF ~LiteralPathC(dd) THEN "LiteralPathM"
+               ELSE IF ~CachePathsC(dd, h) THEN "CachePathsM"
                ELSE "ok"]
 
 NoResult == [d |-> <<>>, cls |-> "", url |-> FALSE, hostile |-> FALSE, oh |-> "", oroute |-> "", oresp |-> "",
              olsel |-> <<>>, fold |-> FALSE, mv |-> "ok"]
 
-Init == /\ phase = "new" /\ hl \in Lists /\ frame \in Frames /\ RawOk(raw) /\ res = NoResult
+Init == /\ phase = "new" /\ hl \in Lists /\ frame \in Frames /\ RawOk(raw) /\ pre \in Pres /\ res = NoResult
 
 Compute ==
     /\ phase = "new" /\ phase' = "done"
-    /\ UNCHANGED <<hl, frame, raw>>
+    /\ UNCHANGED <<hl, frame, raw, pre>>
     /\ res' = Result(hl, frame, raw)
 
 Next == Compute
 Spec == Init /\ [][Next]_vars
 
 \* The design argument proper: must hold whatever the code's recorded deviations are.
-DesignHolds == res.mv \notin {"NormalFormM", "ContainmentM", "PrefixClosedM", "UntaintedM", "FilterGatesM", "LiteralPathM"}
+DesignHolds == res.mv \notin {"NormalFormM", "ContainmentM", "PrefixClosedM", "UntaintedM", "FilterGatesM", "LiteralPathM", "CachePathsM"}
 \* Clauses that the code's named deviations (NulRaises, ZipCountsAsReal) can falsify are NOT
 \* TLC invariants (TLC would stop at the first of thousands of NUL selectors): their verdict
 \* is the field res.mv, relayed per case by the harness like a trace verdict.
